@@ -599,7 +599,7 @@ or a list of these
     ## sanitize time signature, when they are only present in one track, and no global is set
     # find the number of ts per each track
     number_of_time_sig_per_track = [
-        len(time_sigs_by_track[t]) for t in key_sigs_by_track.keys()
+        len(time_sigs_by_track[t]) for t in time_sigs_by_track.keys()
     ]
     # if one track has 0 ts, and another has !=0 ts, and no global_time_sigs is present, sanitize
     # all key signatures are copied to global, and the track ts are removed
